@@ -80,7 +80,8 @@ def shape(T) -> str:
         return "lv[%s]" % shape(T._item_type)
     if k == "list":
         return "*%s" % shape(T._item_type)
-    return "(" + ",".join(("?" if f.optional else "") + shape(f.type) for f in T.fields) + ")"
+    # "?" optional field, "!" field present only when a predicate over the earlier fields holds
+    return "(" + ",".join(("?" if f.optional else "") + ("!" if f.requires is not None else "") + shape(f.type) for f in T.fields) + ")"
 
 
 def schema_shape(s):
